@@ -34,8 +34,8 @@ META = {
                   "warm-start fallback – documented as 'error could be >= epsilon', recorded as budget_limited, not as a violation.",
     "shards": {"quick": 3, "thorough": 16},
     "budget_s": {"quick": 100, "thorough": 300},
-    "min_evals": {"quick": 400, "thorough": 8000},
-    "min_nontrivial": {"quick": 100, "thorough": 2000},
+    "min_evals": {"quick": 400, "thorough": 3000},
+    "min_nontrivial": {"quick": 100, "thorough": 800},
     "deciding": ["rs.bound", "rs.gateset", "sk.bound", "sk.gateset", "ct.gate", "ct.circuit"],
     "rule": "case = (algorithm, target gate and angle, epsilon, budget options) or (circuit, epsilon, method, position in the call history); distinct = "
             "distinct (algorithm, rounded angle, epsilon, options) / circuit structure; non-trivial = the target is not itself a Clifford+T gate "
